@@ -125,8 +125,11 @@ def random_pairs(ctx, n_pairs):
     tries = 0
     while len(recs) < n_pairs * 4 and tries < n_pairs * 40:
         tries += 1
-        l = randdocs.rand_doc(rng, max_nodes=12, max_depth=3, anchor_names=["A", "B"], anchor_p=0.4, alias_p=0.3)
-        r = randdocs.rand_doc(rng, max_nodes=12, max_depth=3, anchor_names=["A", "B"], anchor_p=0.4, alias_p=0.3)
+        # in a third of the pairs one Hash / Array of each side carries an anchor of its own (C left, D right: never in
+        # conflict), so that scalar anchors are defined and aliased inside an anchored container
+        ca = rng.random() < 0.34
+        l = randdocs.rand_doc(rng, max_nodes=12, max_depth=3, anchor_names=["A", "B"], anchor_p=0.4, alias_p=0.3, container_anchor="C" if ca else None)
+        r = randdocs.rand_doc(rng, max_nodes=12, max_depth=3, anchor_names=["A", "B"], anchor_p=0.4, alias_p=0.3, container_anchor="D" if ca else None)
         if not (_has_anchor(l) and _has_anchor(r)):
             continue
         h, a, o, s = rng.choice(H), rng.choice(A), rng.choice(O), rng.choice(S)
